@@ -987,6 +987,34 @@ func main() {
 		if f := os.Getenv("VERIF_FOCUS"); f != "" {
 			g.focus = strings.Split(f, ",")
 		}
+		// the regression corpus runs first: minimised histories that demonstrated defects
+		// (now fixed) or that a check once missed
+		corpus, _ := filepath.Glob(filepath.Join("corpus", "peercore", "*.json"))
+		sort.Strings(corpus)
+		for ci, f := range corpus {
+			data, err := os.ReadFile(f)
+			if err != nil {
+				continue
+			}
+			var wrap struct {
+				Case scenario `json:"case"`
+			}
+			var sc scenario
+			if json.Unmarshal(data, &wrap) == nil && wrap.Case.Psize != 0 {
+				sc = wrap.Case
+			} else if json.Unmarshal(data, &sc) != nil || sc.Psize == 0 {
+				continue
+			}
+			sc.ID = 200000 + ci
+			t, k, _ := runScenario(&sc, nil, *prop, 0)
+			terms = append(terms, t)
+			scc := sc
+			scs = append(scs, &scc)
+			for kk, v := range k {
+				kinds[kk] += v
+			}
+			kinds["corpus"]++
+		}
 		for i := 0; i < *n; i++ {
 			sc := g.scenario(i)
 			nsteps := 5 + g.r.Intn(55)
@@ -1003,7 +1031,7 @@ func main() {
 				distinct[fmt.Sprintf("%d/%d/%v", sc.Psize, sc.Total, ks)] = true
 			}
 		}
-		if *prop == "C11" {
+		if *prop == "C11" || *prop == "C05" {
 			for i := 0; i < *n/4+8; i++ {
 				c := genAdv(g.r, 100000+i)
 				runAdv(c)
